@@ -58,7 +58,7 @@ type c06msg struct {
 	attrs [][]byte // one byte string per attribute
 	nlri  []byte
 	extra int // added to the total attribute length field
-	wextra int // added to the withdrawn routes length field
+	wextra int // the withdrawn routes length field points this far beyond the end of the message
 }
 
 func c06build() *c06msg {
@@ -124,7 +124,7 @@ func (m *c06msg) inject(f int) {
 	case c06confedSegment:
 		m.attrs[1][3] = BGP_ASPATH_ATTR_TYPE_CONFED_SEQ
 	case c06communitiesLength:
-		n := 1 + int(vU8("community_extra_bytes")%3) // length 4k+1..4k+3
+		n := 1 + vChoice("community_extra_bytes", 3) // length 4k+1..4k+3
 		a := []byte{0xc0, 8, byte(4 + n), 0xfd, 0xe8, 0, 1}
 		for i := 0; i < n; i++ {
 			a = append(a, vU8("community_byte"))
@@ -143,7 +143,7 @@ func (m *c06msg) inject(f int) {
 		vAssume(c > 1) // the segment announces more members than the attribute holds
 		m.attrs[1][4] = c
 	case c06withdrawnLenOverrun:
-		m.wextra = 1 + int(vU8("withdrawn_overrun"))
+		m.wextra = 1 + 200*vChoice("withdrawn_overrun", 2) // beyond the end of the message by 1 or 201 octets
 	case c06missingAsPath:
 		m.attrs = append(m.attrs[:1:1], m.attrs[2:]...)
 	case c06missingOrigin:
@@ -157,7 +157,11 @@ func (m *c06msg) bytes() []byte {
 		as = append(as, a...)
 	}
 	tl := len(as) + m.extra
-	out := []byte{byte(m.wextra >> 8), byte(m.wextra), byte(tl >> 8), byte(tl)}
+	wl := 0
+	if m.wextra > 0 {
+		wl = len(as) + len(m.nlri) + 2 + m.wextra // more than everything that follows the field
+	}
+	out := []byte{byte(wl >> 8), byte(wl), byte(tl >> 8), byte(tl)}
 	out = append(out, as...)
 	return append(out, m.nlri...)
 }
